@@ -107,6 +107,9 @@ class Module:
                 for x in shlex.split(m.group(1)):
                     k, _, v = x.partition('=')
                     kv[k] = v
+                # an obligation name may contain blanks: it runs up to the next ` key=` of the tag
+                mo = re.search(r'\bobligation=(.*?)(?=\s+(?:label|tier|bound|finding|unit|assumes|props)=|$)', m.group(1))
+                if mo: kv['obligation'] = mo.group(1).strip()
                 # find fn name below
                 j = i + 1
                 name = None
@@ -225,6 +228,22 @@ def inject(w, modules):
 # ----------------------------------------------------------------------------- running
 UNDECIDED_CATEGORIES = ('unwind', 'unsupported_construct')
 
+def restore_message(c):
+    """Edition-2024 crates make `assert!(cond, "text")` a runtime-formatted message, which Kani replaces by a placeholder:
+    read the message back from the harness source line the check points at."""
+    if 'placeholder message' not in (c.get('description') or ''): return
+    loc = c.get('location') or {}
+    try:
+        lines = open(loc.get('file')).read().split('\n')
+        ln = int(loc.get('line')) - 1
+        seg = ' '.join(lines[ln:ln + 3])
+        col = int(loc.get('column') or 1) - 1
+        seg = seg[col:] if col < len(lines[ln]) else seg
+        m = re.search(r'assert!\(.*?,\s*"((?:[^"\\]|\\.)*)"\s*\)', seg)
+        if m: c['description'] = '"%s"' % m.group(1)
+    except Exception:
+        pass
+
 def classify_check(c):
     """-> 'property' | 'unwind' | 'unsupported' | 'cover'"""
     cat = (c.get('category') or '').lower()
@@ -275,6 +294,7 @@ def run_job(w, job_modules, harnesses, outdir, jobs=16, harness_timeout=600, tot
         r = byid[hid]
         checks = r.get('checks', [])
         failed = [c for c in checks if c.get('status') in ('Failure', 'FAILURE', 'Failed')]
+        for c in failed: restore_message(c)
         kinds = {}
         for c in failed:
             kinds.setdefault(classify_check(c), []).append(c)
